@@ -282,6 +282,28 @@ theorem gc_kept_is_prefix (bound : Nat) (sizes : List Nat) (h : sizes ≠ []) :
       gcKeep bound sizes = List.replicate k true ++ List.replicate (sizes.length - k) false :=
   gcKeep_prefix bound sizes h
 
+/-- **A larger bound never removes more**: a file kept under `b₁` is kept under every `b₂ ≥ b₁`. -/
+theorem gc_monotone (b1 b2 : Nat) (hb : b1 ≤ b2) (sizes : List Nat) (i : Nat) (hi : i < sizes.length)
+    (h : (gcKeep b1 sizes)[i]? = some true) : (gcKeep b2 sizes)[i]? = some true := by
+  rw [gc_prefix b1 sizes i hi] at h
+  rw [gc_prefix b2 sizes i hi]
+  simp only [Option.some.injEq, Bool.or_eq_true, beq_iff_eq, decide_eq_true_eq] at h ⊢
+  omega
+
+/-- **A bound above the total size keeps every file**, a bound of 0 only the newest. -/
+theorem gc_keeps_all (bound : Nat) (sizes : List Nat) (hb : sizes.sum < bound) (i : Nat) (hi : i < sizes.length) :
+    (gcKeep bound sizes)[i]? = some true := by
+  rw [gc_prefix bound sizes i hi]
+  have h1 : (sizes.take (i + 1)).sum ≤ sizes.sum := by
+    conv => rhs; rw [← List.take_append_drop (i + 1) sizes, List.sum_append]
+    omega
+  simp only [Option.some.injEq, Bool.or_eq_true, beq_iff_eq, decide_eq_true_eq]
+  omega
+
+theorem gc_zero_keeps_only_newest (sizes : List Nat) (i : Nat) (hi : i < sizes.length) :
+    (gcKeep 0 sizes)[i]? = some (i == 0) := by
+  rw [gc_prefix 0 sizes i hi]; simp
+
 /-! ### non-vacuity -/
 
 example : gcKeep 10 [3, 4, 5, 1, 0] = [true, true, false, false, false] := by decide
